@@ -376,6 +376,9 @@ class SymbolTable(OpTrait):
             ) is not None and sym_interface.get_sym_attr_name(o) == name.root_reference:
                 if not name.nested_references:
                     return o
+                # A nested reference can only be resolved inside a symbol table
+                if not o.has_trait(SymbolTable):
+                    return None
                 nested_root, *nested_references = name.nested_references.data
                 nested_name = SymbolRefAttr(nested_root, nested_references)
                 return SymbolTable.lookup_symbol(o, nested_name)
